@@ -1369,9 +1369,9 @@ fn main() {
     ctx.assume("the agent-side on_event/on_update/on_remove/on_clear trace is the ground truth for the order of a lane's states (ranks value-lane states in the order rule, and all states in the never-older rule)");
     ctx.assume("the harness store applies an operation atomically; a fault injected before the operation is applied counts as not handed over for the restart fold, one injected after as handed over");
     ctx.assume("single-threaded harness-owned schedule: cut points are poll boundaries, store calls and frame reads, not arbitrary instructions");
-    if ctx.tier == vcommon::Tier::Thorough {
-        ctx.level("fault_enumeration");
-    }
+    // both tiers enumerate crash points: quick enumerates every cut of a small batch of histories and samples
+    // cuts for the rest; thorough enumerates every cut of a large batch
+    ctx.level("fault_enumeration");
     let max_ops = ctx.pick(40, 70);
     // development override: C05_SCALE=<percent> scales the case counts
     let scale: u64 = std::env::var("C05_SCALE").ok().and_then(|s| s.parse().ok()).unwrap_or(100);
